@@ -1261,7 +1261,7 @@ func (s *Session) note(msg *ClientComMessage) {
 			return
 		}
 	case "call":
-		if types.GetTopicCat(msg.RcptTo) != types.TopicCatP2P {
+		if !strings.HasPrefix(msg.RcptTo, "p2p") {
 			// Calls are only available in P2P topics.
 			return
 		}
